@@ -111,7 +111,7 @@ def _cases(draw, tier):
             return {'skip': 'no operand value satisfies the constraints', 'isa': cfg}
         ops.append(o)
     perturb = draw(st.sampled_from(['none', 'none', 'none', 'reg', 'drop', 'add', 'keylabel', 'keylabel', 'keyplus', 'keyplus',
-                                    'garbage', 'garbage', 'regnear', 'regnear']))
+                                    'garbage', 'garbage', 'regnear', 'regnear', 'regoffset']))
     regs = isa.registers
     if perturb == 'reg' and ops and regs:
         i = draw(st.integers(0, len(ops) - 1))
@@ -120,6 +120,17 @@ def _cases(draw, tier):
         ops.pop(draw(st.integers(0, len(ops) - 1)))
     elif perturb == 'add':
         ops.insert(draw(st.integers(0, len(ops))), {'k': 'expr', 'e': ['num', draw(st.integers(0, 9)), 'dec']})
+    elif perturb == 'regoffset' and ops and regs:
+        # a register name, in any letter case, is not a number: not as the offset of an indirect register either
+        idxs = [i for i, o in enumerate(ops) if o['k'] == 'indreg']
+        indexed_bases = {a['register'].lower() for s_ in cfg['operand_sets'].values() for a in s_['operand_values'].values()
+                         if a['type'] == 'indirect_indexed_register'}
+        idxs = [i for i in idxs if ops[i]['r'].lower() not in indexed_bases]
+        if idxs:
+            i = draw(st.sampled_from(idxs))
+            r = draw(st.sampled_from(regs))
+            r = draw(st.sampled_from([r, r.upper(), r.swapcase()]))
+            ops[i] = dict(ops[i], sign='+', off=['lab', r])
     elif perturb == 'regnear' and ops:
         # a register name with one character changed (the dot of "r1.w" replaced, a letter appended) is not that register
         idxs = [i for i, o in enumerate(ops) if o['k'] in ('reg', 'indreg') and o.get('deco') is None and o.get('off') is None]
